@@ -1,17 +1,20 @@
 /-
 C07 — Streams are independent: a stalled stream never blocks the others.
 
-* `C07_full` — every healthy stream is eventually delivered to an application that keeps
-  accepting, whatever is stalled — is FALSE of the pinned code: a stream stalled INSIDE its
-  preamble keeps both hand-off slots of its kind; one such bidirectional stream (capacity 1),
-  or four such unidirectional ones (capacity 4), block every later stream of the kind
-  (`C07_full_false`; recorded as known finding D6).
-* `C07_partial` — what does hold, for every schedule: as long as fewer streams of a kind are
-  stalled inside their preamble than the kind's capacity, the pipeline cannot get stuck while a
-  healthy stream is undelivered, and every internal step strictly decreases a work: every
-  fair completion delivers all healthy streams. Streams stalled AFTER their preamble (complete
-  preamble then silence, accepted but unread) are delivered like healthy ones and hold nothing.
-  The two kinds, datagrams and the session stream use disjoint queues.
+The hand-off pipeline of one stream kind (`Driver/Handoff.lean`) under every schedule of peer
+opens, worker accepts, preamble tasks finishing or failing, application accepts and cancelled
+accept calls, with any set of streams stalled inside their preamble:
+
+* `C07_full` — every fair completion terminates (each internal step decreases `work`) in a state
+  where nothing internal can happen, and in such a state no healthy stream is left undelivered:
+  a task that waits for preamble bytes holds no queue slot (`source_takes_slot_after_preamble`,
+  a structural fact the translator extracts from `accept_uni` / `accept_bi` on every run).
+* `reserve_first_violates_*` — why that structural fact matters: with the slot reserved before
+  the preamble is read (the pinned tree before `fix:` D6) one stalled bidirectional stream, or
+  four stalled unidirectional ones, block every later stream of the kind.
+* Streams stalled AFTER their preamble (complete preamble then silence, accepted but unread) go
+  through the pipeline like healthy ones and hold nothing (`accepted_streams_hold_nothing`).
+  The two kinds, datagrams and the session stream use disjoint queues and select branches.
 -/
 import WtVerif.Props.C08
 
@@ -22,49 +25,46 @@ open Handoff
 def pendingHealthy (s : St) : List Nat :=
   (s.backlog ++ s.tasks ++ s.queue).filter (fun id => !s.stalled.contains id)
 
-/-- the full property for a given capacity: from every reachable state, a fair completion
-leaves no healthy stream undelivered -/
-def C07_full (cap : Nat) : Prop :=
-  ∀ (stalled : List Nat) (as : List Act), pendingHealthy (drain 1000 (run (init cap stalled) as)) = []
+/-- **The structure the proof rests on**, read from the current source: neither `accept_uni`
+nor `accept_bi` reserves a queue slot before the preamble task is spawned, and both queues
+have room for at least one stream. -/
+theorem source_takes_slot_after_preamble :
+    Generated.HANDOFF_RESERVE_FIRST_UNI = false ∧ Generated.HANDOFF_RESERVE_FIRST_BI = false ∧
+    0 < Generated.CAP_READY_UNI_WT ∧ 0 < Generated.CAP_READY_BI_WT := by decide
 
-/-- **No deadlock**: while fewer than `cap` tasks are stuck in their preamble and a healthy
-stream is still on its way, some internal action is enabled. -/
-theorem no_deadlock (s : St) (hs : stalledTasks s < s.cap) (hcap : s.tasks.length + s.queue.length ≤ s.cap)
-    (hp : pendingHealthy s ≠ []) : ¬ Quiescent s := by
-  intro hq
+/-- **Nothing left behind**: when nothing internal can happen any more, every healthy stream
+has been delivered — whatever number of streams is stalled inside its preamble. -/
+theorem quiescent_all_delivered (s : St) (hrf : s.reserveFirst = false) (hcap : 0 < s.cap)
+    (hq : Quiescent s) : pendingHealthy s = [] := by
   obtain ⟨ha, hf, hr⟩ := hq
-  -- nothing in the queue, every task is stalled, so the healthy stream is in the backlog
   have hqueue : s.queue = [] := by
     cases hqq : s.queue with
     | nil => rfl
     | cons a t => simp [canRecv, hqq] at hr
+  have hbl : s.backlog = [] := by
+    cases hb : s.backlog with
+    | nil => rfl
+    | cons a t => simp [canAccept, hb, hrf] at ha
   have hall : ∀ id ∈ s.tasks, s.stalled.contains id = true := by
     intro id hid
-    simp only [canFinish, List.any_eq_false] at hf
+    simp only [canFinish, hrf, hqueue, List.length_nil, hcap, decide_true, Bool.false_or, Bool.and_true,
+      List.any_eq_false] at hf
     have := hf id hid
     simpa using this
-  have htasks : stalledTasks s = s.tasks.length := by
-    unfold stalledTasks
-    rw [List.filter_eq_self.2 hall]
-  have hbl : s.backlog ≠ [] := by
-    intro hb
-    apply hp
-    unfold pendingHealthy
-    rw [hb, hqueue]
-    simp only [List.nil_append, List.append_nil]
-    apply List.filter_eq_nil_iff.2
-    intro id hid
-    have := hall id hid
-    simpa using this
-  have : s.tasks.length + s.queue.length < s.cap := by rw [hqueue]; simp; omega
-  simp [canAccept, hbl, this] at ha
+  unfold pendingHealthy
+  rw [hbl, hqueue]
+  simp only [List.nil_append, List.append_nil]
+  apply List.filter_eq_nil_iff.2
+  intro id hid
+  have := hall id hid
+  simpa using this
 
 /-- every internal action that changes anything strictly decreases the work: fair
 completions terminate -/
 theorem internal_steps_decrease (s : St) :
     (canRecv s = true → work (step s .appRecv) < work s) ∧
     (canAccept s = true → work (step s .workerAccept) < work s) ∧
-    (∀ id, id ∈ s.tasks → s.stalled.contains id = false → s.tasks.Nodup →
+    (∀ id, id ∈ s.tasks → s.stalled.contains id = false → (s.reserveFirst = true ∨ s.queue.length < s.cap) →
         work (step s (.taskDone id)) < work s) := by
   refine ⟨?_, ?_, ?_⟩
   · intro h
@@ -72,21 +72,26 @@ theorem internal_steps_decrease (s : St) :
     | nil => simp [canRecv, hq] at h
     | cons a t => simp only [step, hq, work, List.length_cons]; omega
   · intro h
-    simp only [canAccept, Bool.and_eq_true, Bool.not_eq_true', List.isEmpty_eq_false_iff, decide_eq_true_eq] at h
+    simp only [canAccept, Bool.and_eq_true, Bool.not_eq_true', List.isEmpty_eq_false_iff, Bool.or_eq_true,
+      decide_eq_true_eq] at h
     cases hb : s.backlog with
     | nil => exact absurd hb h.1
     | cons a t =>
-      simp only [step, hb, h.2, if_true, work, List.length_cons, List.filter_cons]
+      have hcond : s.reserveFirst = false ∨ s.tasks.length + s.queue.length < s.cap := h.2
+      simp only [step, hb, hcond, if_true, work, List.length_cons, List.filter_cons]
       cases hc : s.stalled.contains a with
       | true => simp
       | false => simp; omega
-  · intro id hid hst hnd
+  · intro id hid hst hroom
     have hns : id ∉ s.stalled := by
       intro hin
       have : s.stalled.contains id = true := by simpa using hin
       rw [this] at hst; cases hst
-    simp only [step, hid, hns, not_false_eq_true, and_self, if_true, work, List.length_append, List.length_cons,
-      List.length_nil]
+    have hcond : id ∈ s.tasks ∧ id ∉ s.stalled ∧ (s.reserveFirst = true ∨ s.queue.length < s.cap) := ⟨hid, hns, hroom⟩
+    have hstep : step s (.taskDone id) = { s with tasks := s.tasks.erase id, queue := s.queue ++ [id] } := by
+      simp only [step]; exact if_pos hcond
+    rw [hstep]
+    simp only [work, List.length_append, List.length_cons, List.length_nil]
     have hf : (s.tasks.erase id).filter (fun id => !s.stalled.contains id) =
         (s.tasks.filter (fun id => !s.stalled.contains id)).erase id := by
       rw [List.erase_filter]
@@ -96,26 +101,128 @@ theorem internal_steps_decrease (s : St) :
     have : 0 < (s.tasks.filter (fun id => !s.stalled.contains id)).length := List.length_pos_of_mem hmem
     omega
 
-/-- the number of tasks stuck in a preamble never exceeds the number of stalled streams the
-peer has opened -/
-theorem stalled_tasks_bounded (s : St) (hnd : s.tasks.Nodup) :
-    stalledTasks s ≤ (s.stalled.eraseDups).length := by
-  unfold stalledTasks
-  have hsub : ∀ x ∈ s.tasks.filter (fun id => s.stalled.contains id), x ∈ s.stalled.eraseDups := by
-    intro x hx
-    simp only [List.mem_filter, List.contains_iff_mem] at hx
-    exact List.mem_eraseDups.2 hx.2
-  have hnd' : (s.tasks.filter (fun id => s.stalled.contains id)).Nodup := hnd.filter _
-  exact List.Nodup.length_le_of_subset hnd' hsub
+/-- `step` never touches the parameters of the pipeline -/
+theorem step_params (s : St) (a : Act) :
+    (step s a).reserveFirst = s.reserveFirst ∧ (step s a).cap = s.cap ∧ (step s a).stalled = s.stalled := by
+  cases a <;> simp only [step] <;> (repeat' split) <;> simp
 
-/-- **What holds**: with fewer stalled-in-preamble streams than the capacity, a state in which
-nothing internal can happen has no healthy stream left undelivered. Together with
-`internal_steps_decrease`: every fair completion delivers every healthy stream. -/
-theorem C07_partial (s : St) (hs : stalledTasks s < s.cap) (hcap : s.tasks.length + s.queue.length ≤ s.cap)
-    (hq : Quiescent s) : pendingHealthy s = [] := by
-  by_cases hp : pendingHealthy s = []
-  · exact hp
-  · exact absurd hq (no_deadlock s hs hcap hp)
+theorem run_params (as : List Act) : ∀ s : St,
+    (run s as).reserveFirst = s.reserveFirst ∧ (run s as).cap = s.cap ∧ (run s as).stalled = s.stalled := by
+  unfold run
+  induction as with
+  | nil => intro s; exact ⟨rfl, rfl, rfl⟩
+  | cons a as ih =>
+    intro s
+    simp only [List.foldl]
+    obtain ⟨h1, h2, h3⟩ := ih (step s a)
+    obtain ⟨g1, g2, g3⟩ := step_params s a
+    exact ⟨h1.trans g1, h2.trans g2, h3.trans g3⟩
+
+theorem drain_params : ∀ (fuel : Nat) (s : St),
+    (drain fuel s).reserveFirst = s.reserveFirst ∧ (drain fuel s).cap = s.cap := by
+  intro fuel
+  induction fuel with
+  | zero => intro s; exact ⟨rfl, rfl⟩
+  | succ n ih =>
+    intro s
+    unfold drain
+    split
+    · obtain ⟨h1, h2⟩ := ih (step s .appRecv); obtain ⟨g1, g2, _⟩ := step_params s .appRecv
+      exact ⟨h1.trans g1, h2.trans g2⟩
+    · split
+      · split
+        · rename_i id _
+          obtain ⟨h1, h2⟩ := ih (step s (.taskDone id)); obtain ⟨g1, g2, _⟩ := step_params s (.taskDone id)
+          exact ⟨h1.trans g1, h2.trans g2⟩
+        · exact ⟨rfl, rfl⟩
+      · split
+        · obtain ⟨h1, h2⟩ := ih (step s .workerAccept); obtain ⟨g1, g2, _⟩ := step_params s .workerAccept
+          exact ⟨h1.trans g1, h2.trans g2⟩
+        · exact ⟨rfl, rfl⟩
+
+/-- the fair completion `drain` ends, within `work s` steps, in a state where nothing internal
+can happen -/
+theorem drain_quiescent : ∀ (fuel : Nat) (s : St), work s ≤ fuel → Quiescent (drain fuel s) := by
+  intro fuel
+  induction fuel with
+  | zero =>
+    intro s hw
+    show Quiescent s
+    have hw0 : work s = 0 := by omega
+    unfold work at hw0
+    have hb : s.backlog = [] := List.eq_nil_of_length_eq_zero (by omega)
+    have hq : s.queue = [] := List.eq_nil_of_length_eq_zero (by omega)
+    have ht : s.tasks.filter (fun id => !s.stalled.contains id) = [] := List.eq_nil_of_length_eq_zero (by omega)
+    refine ⟨by simp [canAccept, hb], ?_, by simp [canRecv, hq]⟩
+    have : s.tasks.any (fun id => !s.stalled.contains id) = false := by
+      rw [List.any_eq_false]
+      intro x hx hxx
+      have : x ∈ s.tasks.filter (fun id => !s.stalled.contains id) := List.mem_filter.2 ⟨hx, hxx⟩
+      rw [ht] at this; cases this
+    unfold canFinish; rw [this]; rfl
+  | succ n ih =>
+    intro s hw
+    obtain ⟨d1, d2, d3⟩ := internal_steps_decrease s
+    unfold drain
+    by_cases hr : canRecv s = true
+    · simp only [hr, if_true]
+      exact ih _ (by have := d1 hr; omega)
+    · simp only [hr]
+      by_cases hf : canFinish s = true
+      · simp only [hf, if_true]
+        have hany : s.tasks.any (fun id => !s.stalled.contains id) = true := by
+          simp only [canFinish, Bool.and_eq_true] at hf; exact hf.1
+        have hroom : s.reserveFirst = true ∨ s.queue.length < s.cap := by
+          simp only [canFinish, Bool.and_eq_true, Bool.or_eq_true, decide_eq_true_eq] at hf; exact hf.2
+        cases hfind : s.tasks.find? (fun id => !s.stalled.contains id) with
+        | none =>
+          exfalso
+          rw [List.find?_eq_none] at hfind
+          obtain ⟨x, hx, hxx⟩ := List.any_eq_true.1 hany
+          exact hfind x hx hxx
+        | some id =>
+          simp only
+          have hmem := List.mem_of_find?_eq_some hfind
+          have hp := List.find?_some hfind
+          have hst : s.stalled.contains id = false := by simpa using hp
+          exact ih _ (by have := d3 id hmem hst hroom; omega)
+      · simp only [hf]
+        by_cases ha : canAccept s = true
+        · simp only [ha, if_true]
+          exact ih _ (by have := d2 ha; omega)
+        · simp only [ha]
+          refine ⟨by simpa using ha, by simpa using hf, by simpa using hr⟩
+
+/-- **C07 for the hand-off pipeline**: for every capacity of at least one, every set of
+streams stalled inside their preamble (any number `k ≥ 1`, any stall position inside the
+preamble), every schedule of opens, accepts, task completions, peer resets and cancelled accept
+calls, the fair completion terminates and no healthy stream — opened before or after the stalled
+ones — is left undelivered to an application that keeps accepting. -/
+theorem C07_full (cap : Nat) (hcap : 0 < cap) (stalled : List Nat) (as : List Act) :
+    let s := run (init cap stalled false) as
+    Quiescent (drain (work s) s) ∧ pendingHealthy (drain (work s) s) = [] := by
+  intro s
+  have hq := drain_quiescent (work s) s (Nat.le_refl _)
+  obtain ⟨p1, p2, _⟩ := run_params as (init cap stalled false)
+  obtain ⟨q1, q2⟩ := drain_params (work s) s
+  refine ⟨hq, quiescent_all_delivered _ ?_ ?_ hq⟩
+  · rw [q1]; exact p1
+  · rw [q2, p2]; exact hcap
+
+/-- … instantiated with what the translator read from the source, for both stream kinds -/
+theorem C07_unidirectional (stalled : List Nat) (as : List Act) :
+    let s := run (init Generated.CAP_READY_UNI_WT stalled Generated.HANDOFF_RESERVE_FIRST_UNI) as
+    pendingHealthy (drain (work s) s) = [] := by
+  have h := source_takes_slot_after_preamble
+  rw [h.1]
+  exact (C07_full _ h.2.2.1 stalled as).2
+
+theorem C07_bidirectional (stalled : List Nat) (as : List Act) :
+    let s := run (init Generated.CAP_READY_BI_WT stalled Generated.HANDOFF_RESERVE_FIRST_BI) as
+    pendingHealthy (drain (work s) s) = [] := by
+  have h := source_takes_slot_after_preamble
+  rw [h.2.1]
+  exact (C07_full _ h.2.2.2 stalled as).2
 
 /-- streams stalled after their preamble (complete preamble then silence, or accepted and never
 read) go through the pipeline like healthy ones: they are not in `stalled`, their task
@@ -124,25 +231,21 @@ theorem accepted_streams_hold_nothing (s : St) (id : Nat) (rest : List Nat) (hq 
     (step s .appRecv).tasks.length + (step s .appRecv).queue.length + 1 = s.tasks.length + s.queue.length := by
   simp [step, hq]; omega
 
-/-- **The full property is false of the pinned code**, bidirectional streams (capacity 1): the
-peer opens a stream and sends one byte of the two-byte signal, then opens a healthy stream: the
-healthy one is never delivered. -/
-theorem C07_full_false_bidi : ¬ C07_full Generated.CAP_READY_BI_WT := by
-  intro h
-  have := h [0] [.peerOpen 0, .peerOpen 4]
-  revert this
-  decide
+/-! ### why the structural fact matters: the design that reserves first violates the property -/
 
-/-- … and unidirectional streams (capacity 4): four stalled preambles block the fifth stream -/
-theorem C07_full_false_uni : ¬ C07_full Generated.CAP_READY_UNI_WT := by
-  intro h
-  have := h [2, 6, 10, 14] [.peerOpen 2, .peerOpen 6, .peerOpen 10, .peerOpen 14, .peerOpen 18]
-  revert this
-  decide
+/-- bidirectional streams (capacity 1), slot reserved first: the peer opens a stream and sends
+one byte of the two-byte signal, then opens a healthy stream — never delivered -/
+theorem reserve_first_violates_bidi :
+    pendingHealthy (drain 100 (run (init 1 [0] true) [.peerOpen 0, .peerOpen 4])) = [4] := by decide
 
-/-- with one stalled preamble fewer, the same scenario delivers the healthy stream -/
-example : pendingHealthy (drain 1000 (run (init 4 [2, 6, 10]) [.peerOpen 2, .peerOpen 6, .peerOpen 10, .peerOpen 18])) = [] ∧
-    (drain 1000 (run (init 4 [2, 6, 10]) [.peerOpen 2, .peerOpen 6, .peerOpen 10, .peerOpen 18])).delivered = [18] := by
-  decide
+/-- unidirectional streams (capacity 4), slot reserved first: four stalled preambles block the fifth -/
+theorem reserve_first_violates_uni :
+    pendingHealthy (drain 100 (run (init 4 [2, 6, 10, 14] true)
+      [.peerOpen 2, .peerOpen 6, .peerOpen 10, .peerOpen 14, .peerOpen 18])) = [18] := by decide
+
+/-! ### non-vacuity: the same scenarios on the current structure deliver the healthy stream -/
+example : (drain 100 (run (init 1 [0] false) [.peerOpen 0, .peerOpen 4])).delivered = [4] := by decide
+example : (drain 100 (run (init 4 [2, 6, 10, 14] false)
+    [.peerOpen 2, .peerOpen 6, .peerOpen 10, .peerOpen 14, .peerOpen 18])).delivered = [18] := by decide
 
 end Props.C07
